@@ -580,7 +580,8 @@ def run(chk):
 
     if corr_broken:
         chk.coverage["correspondence_disagreements"] = [repr(x)[:600] for x in corr_broken[:10]]
-        if not [v for v in chk.violations]:
+        # the ovnidump/offsets finding concerns inputs on which model and tool agree: it must not hide a broken tie
+        if not [v for v in chk.violations if v[0] != KEY_DUMP_OFFSETS]:
             chk.violation("broken-correspondence",
                           "model and implementation disagree on %d inputs, none of which violates the property's spec" % len(corr_broken),
                           {"correspondence": "heap/player model vs heap.h / ovnidump / ovniemu",
